@@ -70,6 +70,7 @@ type explorer struct {
 	concordEvery int
 	maxTraceLen  int
 	wall         float64
+	budgetHit    bool
 }
 
 type exploreOpts struct {
@@ -87,6 +88,20 @@ func (x *explorer) noteQuery(si int) {
 	if si < len(x.perSolver) {
 		atomic.AddInt64(&x.perSolver[si], 1)
 	}
+}
+
+func (x *explorer) stopped() bool {
+	if !x.opts.Deadline.IsZero() && time.Now().After(x.opts.Deadline) {
+		x.mu.Lock()
+		if !x.stop {
+			x.stop = true
+			x.budgetHit = true
+		}
+		x.mu.Unlock()
+		x.cond.Broadcast()
+		return true
+	}
+	return false
 }
 
 func (x *explorer) noteUnknownBranch(c *Term) {
@@ -176,9 +191,7 @@ func explore(w *world, entry *ssa.Function, opts exploreOpts) *explorer {
 				x.mu.Lock()
 				if (opts.MaxPaths > 0 && x.paths >= opts.MaxPaths) || (!opts.Deadline.IsZero() && time.Now().After(opts.Deadline)) {
 					if len(x.stack) > 0 || x.active > 0 {
-						if !x.stop {
-							x.inconclusive = append(x.inconclusive, fmt.Sprintf("exploration budget exhausted after %d paths (%d prefixes pending)", x.paths, len(x.stack)))
-						}
+						x.budgetHit = true
 					}
 					x.stop = true
 				}
@@ -287,7 +300,9 @@ func (x *explorer) runPath(pool []*Solver, prefix []decision) {
 	if end == "cut" {
 		x.cuts[detail]++
 	}
-	if end == "abort" || end == "engine-bug" {
+	if end == "abort" && detail == "budget" {
+		x.budgetHit = true
+	} else if end == "abort" || end == "engine-bug" {
 		x.inconclusive = append(x.inconclusive, end+": "+truncate(detail, 1500))
 	}
 	if end != "infeasible" {
